@@ -778,16 +778,19 @@ def closure_args_of_call(facts, body, call):
 
 
 def local_callee_bodies(facts, call):
-    """crate-local bodies a call may dispatch to: exact path, resolved impl, or all local impls of a trait method"""
-    out = []
+    """crate-local bodies a call may dispatch to: exact path, resolved impl, or - for calls that could not be
+    resolved to one impl (generic receiver) - all local impls of the trait method (examples excluded)"""
     for name in (call.res, call.callee):
         if name:
             bs = facts.get(name)
             if bs:
                 return bs
+    if call.res:
+        return []       # resolved to a concrete impl outside the crate
     if call.trait:
-        out = facts.impl_methods(call.trait, call.name)
-    return out
+        return [b for b in facts.impl_methods(call.trait, call.name) if not b.npath.startswith('<examples::') and
+                not b.npath.startswith('examples::')]
+    return []
 
 
 def reachable_bodies(facts, body, depth=3, include_closures=True, _seen=None):
